@@ -294,4 +294,5 @@ async def _full(st):
 
 
 def _norm(o):
-    return json.loads(json.dumps(o, default=str, sort_keys=True))
+    # compared as JSON TEXT: 1, 1.0 and true are equal in Python but are different stored values
+    return json.dumps(o, default=str, sort_keys=True)
